@@ -52,6 +52,7 @@ type Parser struct {
 	loadOnce  bool
 	skipValue bool
 	dbuf      *byte
+	depth     int // nesting depth of the eager (noLazy) recursion
 }
 
 /** Parser Private Methods **/
@@ -332,7 +333,14 @@ func (self *Parser) Parse() (Node, types.ParsingError) {
 			if self.loadOnce {
 				self.noLazy = false
 			}
-			return self.decodeArray(new(linkedNodes))
+			/* eager parsing recurses once per nesting level: bound it like the native scanners do */
+			if self.depth >= types.MAX_RECURSE {
+				return Node{}, types.ERR_RECURSE_EXCEED_MAX
+			}
+			self.depth++
+			n, e := self.decodeArray(new(linkedNodes))
+			self.depth--
+			return n, e
 		}
 		// NOTICE: loadOnce always keep raw json for object or array
 		if self.loadOnce {
@@ -355,7 +363,13 @@ func (self *Parser) Parse() (Node, types.ParsingError) {
 			if self.loadOnce {
 				self.noLazy = false
 			}
-			return self.decodeObject(new(linkedPairs))
+			if self.depth >= types.MAX_RECURSE {
+				return Node{}, types.ERR_RECURSE_EXCEED_MAX
+			}
+			self.depth++
+			n, e := self.decodeObject(new(linkedPairs))
+			self.depth--
+			return n, e
 		}
 		if self.loadOnce {
 			self.p = s
